@@ -638,7 +638,8 @@ class KroneckerFactoredLatticeConstraints(keras.constraints.Constraint):
     Returns:
       Constrained and projected w.
     """
-    if self.num_constraint_dims:
+    if (self.num_constraint_dims or self.output_min is not None or
+        self.output_max is not None):
       w = kfl_lib.finalize_weight_constraints(
           w,
           units=self.units,
